@@ -126,6 +126,10 @@ def build():
         os.stat_result((33188, 1, 2, 1, 0, 0, 10, 100, 200, 300)),
         os.stat_result((Weird(), 1, 2, 1, 0, 0, 10, 100, 200, Weird())),
         os.stat_result((33188, 9, 2, 1, 0, 0, 10, 1, 2, 3)),
+        # two long strings that share their first pieces but get different quotes
+        "Don't panic, it's only a drill: " + 'lorem ipsum dolor sit amet ' * 8,
+        "Don't panic, it's only a drill: " + 'lorem ipsum dolor sit amet ' * 8 + 'and then he said "hello" and "goodbye" and "again" and "more"',
+        [b"it's " * 30, b"it's " * 30 + b'"q" "q" ' * 30],
         ReSub([1]), ReBase(2), [ReSub(3), ReBase(4)], LazyA([1, 2]), LazyB({'k': LazyA(1)}), Eager((1, LazyB(2))), [LazyB(1), time.gmtime(86400)],
         {'nested': [Shade.LIGHT, Point(LazyA(0), None)], 'words ' * 8: 'long string value ' * 6},
     ]
